@@ -532,7 +532,8 @@ theorem exact_dt_partial (C : Carrier α) (M : Model α) (tv : Nat → α) (r : 
   · intro k _
     simp only [exactTS]
     have : (s + (k : Int) * d - s) / d = k := by
-      rw [Int.add_sub_cancel_left]
+      have e : s + (k : Int) * d - s = k * d := by omega
+      rw [e]
       exact Int.mul_ediv_cancel _ (Int.ne_of_gt hd)
     rw [this]
     simp
@@ -601,5 +602,133 @@ theorem C04_witness_raw_keys (c : Cfg) (h : c.memoNormalises = false) : ¬ C04_f
   rw [h5] at hr'
   simp only [Option.some.injEq] at he hr'
   omega
+
+/-! ### Syntax: the emitted stock equation parses to the intended skeleton -/
+
+open Bptk.Py in
+/-- per-run obligation ⇒ for every probed (inflows, outflows) combination the emitted token sequence
+parses (CPython binding powers, A1) to the intended parenthesised skeleton, whose denotation is the
+stock code of the model -/
+theorem skeletons_parse (sk : List (Nat × Nat × List Tok)) (h : skeletonsOK sk = true) :
+    ∀ e ∈ sk, Parses e.2.2 (skelPyP (nmS 0) (.num "7.5") ((flowIxs 1 e.1).map nmS) ((flowIxs (1 + e.1) e.2.1).map nmS)) ∧
+      tmOfPy (erase (skelPyP (nmS 0) (.num "7.5") ((flowIxs 1 e.1).map nmS) ((flowIxs (1 + e.1) e.2.1).map nmS))) =
+        some (stockTm 0 (.lit "7.5") (flowIxs 1 e.1) (flowIxs (1 + e.1) e.2.1)) := by
+  intro e he
+  simp only [skeletonsOK, Bool.and_eq_true, List.all_eq_true] at h
+  have h1 := h.1 e he
+  simp only [skeletonOK, Bool.and_eq_true, decide_eq_true_eq] at h1
+  obtain ⟨⟨htoks, hwl⟩, htm⟩ := h1
+  refine ⟨?_, htm⟩
+  rw [htoks]
+  exact parse_print _ hwl
+
+open Bptk.Py in
+theorem sumPy_wl (te : TE) (ns : List String) (acc : Py) (hacc : WLb 0 acc = true)
+    (hl : lvlH 0 acc ≥ 5) : WLb 0 (sumPy te acc ns) = true ∧ lvlH 0 (sumPy te acc ns) ≥ 5 := by
+  induction ns generalizing acc with
+  | nil => exact ⟨by simpa [sumPy] using hacc, by simpa [sumPy] using hl⟩
+  | cons n ns ih =>
+    simp only [sumPy]
+    apply ih
+    · cases te <;> simp [WLb, memoPy, selfAttr, hacc, lvlH, lvl, ldem, rbp, bp, WLbArgs, WLbArg] <;> omega
+    · simp [lvlH, lvl, bp]
+
+open Bptk.Py in
+theorem memoPy_wl (n : String) (te : TE) : WLb 0 (memoPy n te) = true ∧ lvlH 0 (memoPy n te) ≥ 5 := by
+  cases te <;> simp [WLb, memoPy, selfAttr, lvlH, lvl, ldem, rbp, bp, WLbArgs, WLbArg]
+
+open Bptk.Py in
+/-- for ANY number of inflows and outflows the intended text is well-levelled, hence (A1 round trip)
+its tokens parse to exactly the intended tree: inflows summed left to right, minus the parenthesised
+sum of the outflows, all at `t-self.dt` -/
+theorem skelPyP_parses (s : String) (init : Py) (hinit : WLb 0 init = true) (ins outs : List String) :
+    Parses (pr (skelPyP s init ins outs)) (skelPyP s init ins outs) := by
+  apply parse_print
+  have hm := memoPy_wl s .prev
+  have hnet : WLb 0 (netPyP ins outs) = true ∧ lvlH 0 (netPyP ins outs) ≥ 7 := by
+    match ins, outs with
+    | [], [] => simp [netPyP, WLb, lvlH, lvl]
+    | i :: is, [] =>
+      have := sumPy_wl .prev is (memoPy i .prev) (memoPy_wl i .prev).1 (memoPy_wl i .prev).2
+      simp [netPyP, WLb, lvlH, lvl, this.1]
+    | [], o :: os =>
+      have := sumPy_wl .prev os (memoPy o .prev) (memoPy_wl o .prev).1 (memoPy_wl o .prev).2
+      simp [netPyP, WLb, lvlH, lvl, this.1, ldem, rbp, bp]
+    | i :: is, o :: os =>
+      have h1 := sumPy_wl .prev is (memoPy i .prev) (memoPy_wl i .prev).1 (memoPy_wl i .prev).2
+      have h2 := sumPy_wl .prev os (memoPy o .prev) (memoPy_wl o .prev).1 (memoPy_wl o .prev).2
+      have := h1.2
+      simp [netPyP, WLb, lvlH, lvl, h1.1, h2.1, ldem, rbp, bp]
+      omega
+  have := hm.2
+  have := hnet.2
+  simp [skelPyP, WLb, hinit, hm.1, hnet.1, selfAttr, lvlH, lvl, ldem, rbp, bp]
+  omega
+
+/-! ### Graphical functions: the generated LERP is a clamped interpolation -/
+
+theorem lerp_clamped_left (C : Carrier α) (p0 : α × α) (rest : List (α × α)) (x : α)
+    (h : C.cmp .le x p0.1 = true) : lerp C (p0 :: rest) x = some p0.2 := by
+  simp [lerp, h]
+
+theorem lerp_clamped_right (C : Carrier α) (p0 : α × α) (rest : List (α × α)) (x : α)
+    (h0 : C.cmp .le x p0.1 = false) (h : C.cmp .ge x (lastD p0 rest).1 = true) :
+    lerp C (p0 :: rest) x = some (lastD p0 rest).2 := by
+  simp [lerp, h0, h]
+
+/-- inside the table: on the first segment whose right end is beyond `x`, the value is the point's `y`
+when `x` is exactly the left end, else `(y1-y0)/(x1-x0)*(x-x0)+y0` in this operation order -/
+theorem lerp_interior (C : Carrier α) (p0 p1 : α × α) (rest : List (α × α)) (x : α)
+    (h0 : C.cmp .le x p0.1 = false) (hl : C.cmp .ge x (lastD p0 (p1 :: rest)).1 = false)
+    (h1 : C.cmp .lt x p1.1 = true) (hne : C.cmp .eq x p0.1 = false) :
+    lerp C (p0 :: p1 :: rest) x =
+      some (C.bin .add (C.bin .mul (C.bin .div (C.bin .sub p1.2 p0.2) (C.bin .sub p1.1 p0.1)) (C.bin .sub x p0.1)) p0.2) := by
+  simp [lerp, h0, hl, lerpIn, h1, hne]
+
+theorem lerp_total (C : Carrier α) (p0 : α × α) (rest : List (α × α)) (x : α) :
+    ∃ v, lerp C (p0 :: rest) x = some v := by
+  simp only [lerp]
+  split
+  · exact ⟨_, rfl⟩
+  · split <;> exact ⟨_, rfl⟩
+
+/-! ### Non-vacuity -/
+
+/-- a two-stock feedback graph with a stock-to-stock uniflow, a biflow, an auxiliary using TIME and a
+graphical function, on the idealised grid with the integers as carrier: the hypotheses of the theorem
+are satisfiable and the run returns a definite trajectory value -/
+def exM : Model Int :=
+  { elems := [ .stock (.int 10) [2] [3],              -- e0: in e2, out e3
+               .stock (.int 0) [3] [],                -- e1: in e3 (the outflow of e0)
+               .flow false (.bin .sub (.ref 4) (.ref 1)),   -- e2 biflow: aux - stock1
+               .flow true (.bin .div (.ref 0) (.int 2)),    -- e3 uniflow: stock0 / 2
+               .gf (.bin .add .time (.ref 0)) [(0, 0), (10, 100)] ],   -- e4: graphical function of TIME + stock0
+    dtv := 1 }
+
+def exX : Ctx Nat Int :=
+  { C := intCarrier, ts := natTS (fun k => (k : Int)), M := exM, tv := fun k => (k : Int), label := id, N := 50,
+    r := fun n => if n = 2 then 1 else 0, code := compile exM }
+
+example : exX.GridOK :=
+  ⟨fun _ _ => rfl, fun _ _ => rfl, rfl, fun _ _ => rfl, fun i j _ _ h => by simpa [exX, natTS] using h, fun _ _ => rfl⟩
+
+example : euler intCarrier exM (fun k => (k : Int)) 0 3 = runVal intCarrier (natTS (fun k => (k : Int))) 1 (compile exM) 100 [] 0 3 := by
+  decide +kernel
+
+example : (euler intCarrier exM (fun k => (k : Int)) 0 3).isSome = true := by decide +kernel
+
+/-- the counting model on the idealised grid takes exactly `k` steps to index `k` (here k = 4), while the
+raw-float run of `C04_witness_raw_keys` takes 5 -/
+example : runVal intCarrier (natTS (fun _ => (0 : Int))) 1 (compile wM) 40 [] 0 4 = some 4 := by decide +kernel
+
+#print axioms xmile_run_eq_euler
+#print axioms C04_full_of_good
+#print axioms C04_partial
+#print axioms C04_witness_raw_keys
+#print axioms dsl_xmile_agree
+#print axioms exact_dt_partial
+#print axioms skeletons_parse
+#print axioms skelPyP_parses
+#print axioms lerp_interior
 
 end Bptk.C04
